@@ -10,7 +10,7 @@ Conformance  : fault enumeration on the real code: for each short scenario the n
                compared with the undisturbed run by TwinJudge.tla (bit for bit for explicit families, to tolerance otherwise).
 """
 import random
-from vf import gen, odecore, core, scen, twins
+from vf import modelreplay, gen, odecore, core, scen, twins
 
 LEVEL = "fault_enumeration"
 PREFIX = ("C12.",)
@@ -103,6 +103,9 @@ def check(run, replay=None):
                 "invocations is a separate execution (all k when N <= cap, else first 4, last 3 and a seeded sample); some histories add a "
                 "second fault, a KeyboardInterrupt or a reset; non-trivial = the fault hit after at least one accepted step or inside "
                 "event handling / a callback / a retry; distinct by (scenario, k)")
+    if replay and isinstance(replay.get("scenario"), dict) and "modelreplay" in replay["scenario"]:
+        modelreplay.phase(run, [], "C12", ('Rows', 'Pieces', 'Events', 'Status', 'Raised', 'FailureCause', 'Dt', 'CallbackCount', 'RunTerminates'), replay=replay["scenario"]["modelreplay"])
+        return
     if replay:
         sc = replay.get("scenario")
         if isinstance(sc, dict) and "twin" in sc:
@@ -165,6 +168,9 @@ def check(run, replay=None):
             run.violation(bad["clause"], "resume %s fault@%s" % (odecore.describe(a), b["ops"][0].get("fault")),
                           {"tolUnits": cases[bad["id"]]["tolUnits"], "rowsA": len(cases[bad["id"]]["seqA"]), "rowsB": len(cases[bad["id"]]["seqB"])},
                           replay={"twin": [a, b]})
+    if not replay:
+        # spec -> code: behaviours of the design model with a Fault step (right-hand side, event function or callback raises at a loop position TLC chose) replayed on the real code, resumed, reset
+        modelreplay.phase(run, ['OdeSystemSim_fixed'], "C12", ('Rows', 'Pieces', 'Events', 'Status', 'Raised', 'FailureCause', 'Dt', 'CallbackCount', 'RunTerminates'), keep=modelreplay.has_fault)
     run.assumptions += ["faults are injected through the wrapped user callables only (right-hand side, event functions, callbacks); "
                         "failures inside library internals (allocation, linear algebra) are not enumerated",
                         "the resumed result is required bit for bit only for fixed-step explicit/splitting runs without events or callbacks; elsewhere "
